@@ -38,7 +38,7 @@ MANIFEST = {
 RULES = ['/x', '/x/{p}']
 SPECS = ['GET', 'HEAD', 'POST', 'ANY', 'get', ('GET', 'POST')]
 METHODS = ['GET', 'HEAD', 'POST', 'ANY']
-REQ_METHODS = ['GET', 'HEAD', 'POST', 'PUT', 'OPTIONS', 'ANY', 'get', 'Head']
+REQ_METHODS = ['GET', 'HEAD', 'POST', 'PUT', 'OPTIONS', 'ANY', 'get', 'Head', 'M-SEARCH', "X.Y_1~!'"]     # (any rfc7230 token is a method)
 PATHS = ['/x', '/x/', '/x/1', '/y', '/z']
 
 
@@ -56,6 +56,8 @@ def menu():
         m.append(('rml', r, ('PUT', 'ANY')))
     # the same rule written in another spelling (bottle style / colon style): it is the same route
     m += [('route', '/x/<p>', 'GET', True), ('route', '/x/:p', 'POST', True), ('route', '/x/<p>', 'HEAD', False), ('rm', '/x/:p', 'GET')]
+    # an extension method (WebDAV / UPnP style) and the per-route interface with a single method name
+    m += [('route', '/x', 'M-SEARCH', False), ('rm', '/x', 'M-SEARCH'), ('radd', '/x', 'POST'), ('radd', '/x/{p}', 'POST'), ('rset', '/x', 'GET'), ('rset', '/x/{p}', 'GET')]
     # serving a request is an operation too: it must not change how later requests are dispatched
     for meth, path in (('GET', '/x'), ('HEAD', '/x'), ('POST', '/x'), ('PUT', '/x'), ('HEAD', '/x/1'), ('POST', '/x/1')):
         m.append(('req', path, meth))
@@ -160,6 +162,14 @@ class Model:
         tab = self.t.get(rule)
         if tab is None:
             return True if kind == 'rm' else None      # removing from an unregistered rule: nothing to do
+        if kind == 'radd':
+            if op[2] in tab:
+                return False
+            tab[op[2]] = 'RA:' + op[2]
+            return True
+        if kind == 'rset':
+            tab[op[2]] = 'RS:' + op[2]
+            return True
         if kind == 'rmm' and op[2] not in tab:
             return None
         if kind == 'rml':
@@ -246,6 +256,12 @@ def apply_real(app, op):
             return 'none'
         if kind == 'rm':
             route.remove_method(op[2])
+            return 'ok'
+        if kind == 'radd':
+            route.add_method(op[2], make_handler(app, 'RA:' + op[2]))
+            return 'ok'
+        if kind == 'rset':
+            route.set_method(op[2], make_handler(app, 'RS:' + op[2]))
             return 'ok'
         if kind == 'rml':
             route.remove_method(list(op[2]))
@@ -376,10 +392,11 @@ def _work(spec):
         out = log[-1]
         if acc is False:
             c['rejected_registrations'] += 1
-            if not out.startswith('raised') or ka != kb:
+            # (what must not change is what a user can observe: the method tables - not the concrete object graph)
+            if not out.startswith('raised') or ka[0] != kb[0]:
                 core.add_violation(res, {'kind': 'transition', 'hist': [list(o) for o in hist + (op,)], 'scoped': SCOPED[0]},
                                    f'after {list(hist)!r} the duplicate registration {op!r} must be rejected and change nothing; '
-                                   f'outcome {out}, state changed: {ka != kb}', sig='reject')
+                                   f'outcome {out}, state changed: {ka[0] != kb[0]}', sig='reject')
         elif acc is True and out.startswith('raised'):
             core.add_violation(res, {'kind': 'transition', 'hist': [list(o) for o in hist + (op,)], 'scoped': SCOPED[0]},
                                f'after {list(hist)!r} the operation {op!r} raised {out}', sig='spurious-reject')
